@@ -372,6 +372,9 @@ chunk* small_free_memory_list::find_chunk_impl(unsigned char* node, chunk_base* 
         else if ((c = from_chunk(last, node, node_size_)) != nullptr)
             return c;
 
+        if (first == last)
+            break; // met in the middle, every chunk in between was inspected
+
         first = first->next;
         last  = last->prev;
     } while (!greater(first, last));
